@@ -14,7 +14,7 @@ use crate::clock::{self, ClockLog, ClockScript};
 use crate::lang::{render_stmt, Fmt};
 use crate::obs::{observe_call, CallObs, LineObs, PanicInfo, Slot};
 use crate::project_result;
-use crate::rules::{CallLog, SimRule};
+use crate::rules::{CallLog, NestCtl, NestState, PendingInner, SimRule};
 use crate::trace::{split_lines, AdminOp, Line, RuleSpec, TextSpec, TypeItemSpec};
 
 #[derive(Debug, Clone, PartialEq, Serialize, Deserialize)]
@@ -147,13 +147,35 @@ pub struct World {
     pub log: CallLog,
     pub allow_unwind: bool,
     pub explain: bool,
+    /// yield-point control shared with the callbacks registered on `calc`
+    pub nest: NestCtl,
+}
+
+/// one inner step of a nested event, as handed to `World::run_nested`
+pub struct InnerCall {
+    pub idx: usize,
+    pub at_call: u32,
+    pub actor: u8,
+    pub session: bool,
+    pub lang: String,
+    pub text: String,
+    pub t: i128,
+}
+
+pub struct InnerResult {
+    pub idx: usize,
+    /// callback invocation of the outer evaluation the step ran in; None = the invocation never
+    /// happened and the step ran right after the outer call
+    pub fired_in_call: Option<u32>,
+    pub obs: CallObs,
+    pub reads: u32,
 }
 
 impl World {
     /// `t0`: instant the clock is frozen at while the calculator is built
     pub fn new(data: &CfgData, salt: u64, t0: i128) -> World {
         clock::freeze(t0);
-        World { calc: SmartCalc::default(), sessions: BTreeMap::new(), cfg: CfgModel::new(data), salt, log: Rc::new(RefCell::new(Vec::new())), allow_unwind: true, explain: false }
+        World { calc: SmartCalc::default(), sessions: BTreeMap::new(), cfg: CfgModel::new(data), salt, log: Rc::new(RefCell::new(Vec::new())), allow_unwind: true, explain: false, nest: Rc::new(RefCell::new(NestState::default())) }
     }
 
     pub fn render(&self, text: &TextSpec) -> Vec<String> {
@@ -181,6 +203,18 @@ impl World {
         clock::with_clock(clk, explain, || observe_call(|| project_result!(calc.execute_session(session))))
     }
 
+    pub fn session_set_language(&mut self, client: u8, lang: &str) {
+        if let Some(s) = self.sessions.get_mut(&client) { s.set_language(lang.to_string()); }
+    }
+
+    /// execute_session once more, without a new text
+    pub fn session_rerun(&mut self, client: u8, clk: &ClockScript) -> (CallObs, ClockLog) {
+        let explain = self.explain;
+        let calc = &self.calc;
+        let session = match self.sessions.get(&client) { Some(s) => s, None => panic!("harness: client {} has no session", client) };
+        clock::with_clock(clk, explain, || observe_call(|| project_result!(calc.execute_session(session))))
+    }
+
     /// the same text fed one line at a time (each piece its own set_text +
     /// execute_session); slots concatenated
     pub fn session_text_linewise(&mut self, client: u8, text: &str, clk: &ClockScript) -> CallObs {
@@ -196,8 +230,55 @@ impl World {
         CallObs::Returned { status, lines: all }
     }
 
+    /// One outer call (one-shot `execute(lang, text)` if `outer_session` is None, else set_text +
+    /// execute_session on that client's session) during which the inner steps run inside the
+    /// callback invocations they are scheduled at, on this same calculator.  Sessions of all
+    /// participants must exist.  Inner steps whose invocation never happens run right after the
+    /// outer call, in order.
+    pub fn run_nested(&mut self, outer_session: Option<u8>, lang: &str, text: &str, clk: &ClockScript, inner: Vec<InnerCall>) -> (CallObs, ClockLog, Vec<InnerResult>) {
+        // all mutation first: texts of the outer and the inner sessions
+        if let Some(c) = outer_session { self.sessions.get_mut(&c).expect("harness: outer session missing").set_text(text.to_string()); }
+        for ic in inner.iter().filter(|i| i.session) { self.sessions.get_mut(&ic.actor).expect("harness: inner session missing").set_text(ic.text.clone()); }
+        // from here on only shared borrows
+        let explain = self.explain;
+        let calc: &SmartCalc = &self.calc;
+        let sessions = &self.sessions;
+        {
+            let mut st = self.nest.borrow_mut();
+            st.calc = Some(calc as *const SmartCalc);
+            st.depth = 0;
+            st.calls = 0;
+            st.done.clear();
+            st.pending = inner.iter().map(|ic| PendingInner { idx: ic.idx, at_call: ic.at_call, lang: ic.lang.clone(), text: ic.text.clone(), session: if ic.session { Some(&sessions[&ic.actor] as *const Session) } else { None }, t: ic.t }).collect();
+        }
+        let (o, log) = match outer_session {
+            None => clock::with_clock(clk, explain, || observe_call(|| project_result!(calc.execute(lang, text)))),
+            Some(c) => { let s = &sessions[&c]; clock::with_clock(clk, explain, || observe_call(|| project_result!(calc.execute_session(s)))) }
+        };
+        let (left, done) = {
+            let mut st = self.nest.borrow_mut();
+            st.calc = None;
+            st.depth = 0;
+            (std::mem::take(&mut st.pending), std::mem::take(&mut st.done))
+        };
+        let mut results: Vec<InnerResult> = done.into_iter().map(|(idx, call, obs, reads)| InnerResult { idx, fired_in_call: Some(call), obs, reads }).collect();
+        for p in left {
+            let (obs, l2) = clock::with_clock(&ClockScript::Frozen { t: p.t }, explain, || observe_call(|| match p.session {
+                None => project_result!(calc.execute(&p.lang[..], &p.text[..])),
+                // SAFETY: pointer into `sessions`, which is still borrowed here
+                Some(s) => { let s: &Session = unsafe { &*s }; project_result!(calc.execute_session(s)) }
+            }));
+            results.push(InnerResult { idx: p.idx, fired_in_call: None, obs, reads: l2.values.len() as u32 });
+        }
+        // leave the simulated clock frozen at the outer event's base instant
+        clock::freeze(clk.base());
+        results.sort_by_key(|r| r.idx);
+        (o, log, results)
+    }
+
     pub fn admin(&mut self, op: &AdminOp, clk: &ClockScript) -> AdminObs {
         let salt = self.salt;
+        let nest = self.nest.clone();
         let log = self.log.clone();
         let allow_unwind = self.allow_unwind;
         let calc = &mut self.calc;
@@ -211,7 +292,7 @@ impl World {
                 AdminOp::SetPercentCfg { digits, remove_zero, rounding } => { calc.set_percentage_configuration(*digits, *remove_zero, *rounding); AdminObs::Unit }
                 AdminOp::SetMoneyCfg { remove_zero, rounding } => { calc.set_money_configuration(*remove_zero, *rounding); AdminObs::Unit }
                 AdminOp::AddRule { lang, rule } => {
-                    let r = Rc::new(SimRule { spec: rule.clone(), salt, log: log.clone(), allow_unwind });
+                    let r = Rc::new(SimRule { spec: rule.clone(), salt, log: log.clone(), allow_unwind, nest: nest.clone() });
                     AdminObs::Bool(calc.add_rule(lang.clone(), rule.patterns.clone(), r))
                 }
                 AdminOp::DeleteRule { lang, name } => AdminObs::Bool(calc.delete_rule(lang.clone(), name.clone())),
